@@ -4,6 +4,7 @@ CLI twins, unknown-key twins, pre-existing target contents.  Pure data; no repo 
 from __future__ import annotations
 
 import copy
+import json
 
 SCHEMA = """
 schema { query: Query mutation: Mutation subscription: Subscription }
@@ -360,6 +361,13 @@ def client_violations():
     ]
     for bad in ["foo", "", "STABLE", "Timestamp "]:
         v.append((f"comments-{bad!r}", "include-comments", setv("include_comments", bad, [bad] if bad else []), None, ()))
+    # include_comments is a CLOSED set (three strings or a boolean): every other TOML value is an unknown mode.
+    # 0/1/0.0/1.0 are not booleans (1 == True in Python!); arrays and tables are unhashable; dates are objects.
+    for bad, shown in [(0, "0"), (1, "1"), (2, "2"), (-1, "-1"), (0.0, "0.0"), (1.0, "1.0"), (1.5, "1.5"),
+                       (["stable"], "stable"), ([], "[]"), ([True], "True"), ({"mode": "stable"}, "stable"), ({}, "{}"),
+                       ({"__date__": "2024-02-29"}, "2024-02-29"), ({"__datetime__": "2024-02-29T10:00:00"}, "2024-02-29")]:
+        v.append((f"comments-nonstring-{json.dumps(bad)}", "include-comments",
+                  setv("include_comments", bad, [shown, "not a valid choice"]), None, ()))
     fields = [("target_package_name", "target-package-name"), ("client_name", "client-name"),
               ("client_file_name", "client-file-name"), ("enums_module_name", "enums-module-name"),
               ("input_types_module_name", "input-types-module-name"), ("fragments_module_name", "fragments-module-name")]
@@ -911,7 +919,8 @@ def remote_cases():
 
 # ---------------- malformed stream: known keys with values of the wrong TOML kind ----------------
 WRONG = {"str": [5, True, ["a"], {"k": "v"}, 1.5], "bool": ["yes", 0, []], "strlist": ["abc", 7, {"a": 1}, [1, 2]],
-         "strdict": ["x", 3, ["a"], {"A": 5}], "comments": [5, ["stable"], 1.5], "scalars": ["x", 3, {"X": "str"}, {"X": {"type": 5}}]}
+         "strdict": ["x", 3, ["a"], {"A": 5}], "comments": [],   # in scope: see client_violations (closed set)
+         "scalars": ["x", 3, {"X": "str"}, {"X": {"type": 5}}]}
 
 
 def malformed_cases(field_kinds):
